@@ -926,6 +926,7 @@ class World:
             rec.inb_info = pdu_info(pdu)
             rec.inb_raw = raw
         rec.pre = Snap(h)
+        was_drained = ent.drained.get(hk, True) and h.num_packets_ready == 0  # nothing left over from earlier calls
         # the shell's own knowledge of un-drained PDUs: it always drains completely unless it is
         # in no-drain mode, where the public counter of the previous call tells it what it left
         # (in no-drain mode it cannot know that the queue is empty, so the clause is not judged)
@@ -956,6 +957,8 @@ class World:
             else:
                 self.internal_errors.append(rec.exc)
         ent.drained[hk] = not ent.nodrain
+        n_announced = h.num_packets_ready if (not ent.nodrain and was_drained) else None
+        n_fetched = 0
         if not ent.nodrain:
             for _ in range(10000):
                 try:
@@ -971,6 +974,7 @@ class World:
                     break
                 if holder is None:
                     break
+                n_fetched += 1
                 try:
                     raw_out = bytes(holder.pack())
                     obj_len = holder.packet_len
@@ -982,6 +986,11 @@ class World:
                     continue
                 rec.emitted.append(Emitted(raw_out, parse_pdu(raw_out), obj_len))
         rec.post = Snap(h)
+        # harness invariant of every check: the public packet counter tells the truth - what it announced after the call is
+        # what could be fetched (queue empty before the call), and it reads 0 once everything is fetched
+        if n_announced is not None and rec.exc is None and (n_announced != n_fetched or h.num_packets_ready != 0):
+            self.violate("packets_ready_counter", f"{ent.name}.{hk} op={op} in={rec.inb_kind} step={rec.pre.step}: announced={n_announced} "
+                         f"fetched={n_fetched} after fetching all: num_packets_ready={h.num_packets_ready}", "")
         self.cur_call = None
         clock.cur = None
         ent.note_state(hk, rec.post)
